@@ -14,7 +14,7 @@
    empty-line groups it sorts within are layout). *)
 From Coq Require Import List Bool NArith Strings.String Permutation.
 From Falco Require Import Base.Res Base.Bytes Gen.FmtConfig Model.FmtTok Model.FmtNorm
-  Proofs.FmtConfigTie Proofs.FmtComments Proofs.FmtSig Proofs.FmtSort Proofs.FmtSortStream Proofs.FmtExamples.
+  Proofs.FmtConfigTie Gen.FmtSpell Proofs.FmtSpellTie Proofs.FmtComments Proofs.FmtSig Proofs.FmtSort Proofs.FmtSortStream Proofs.FmtExamples.
 From Falco Require Gen.TokenTypes Model.ParseKinds Gen.ParserTables Model.ParseBase Model.Ast Model.ParseExpr
   Model.ParseStmt Model.ParseDecl Model.Yield Proofs.ParsePratt
   Proofs.FmtTreeExpr Proofs.FmtTreeTokens Proofs.FmtTreeTokensDel Proofs.FmtTreeStmt
@@ -67,6 +67,12 @@ Theorem C03_config_reads :
   /\ (forall f, In f fmt_conf_reads -> In f fmt_go_fields).
 Proof. exact (proj2 fmt_conf_reads_tie). Qed.
 
+(* T tie for the spellings: every token [norm] inserts ("+", unset, else, if, the parentheses of return, the
+   trailing comma) is spelled by a word of a string literal of formatter/*.go, regenerated on every run *)
+Theorem C03_inserted_spellings_documented :
+  forall t w, In (t, w) inserted -> tl t = bs w /\ word_known w = true.
+Proof. exact inserted_spellings_documented. Qed.
+
 (* non-vacuity: a stream on which every rewrite fires, and its image *)
 Theorem C03_example : norm ex_conf ex_src = ex_out.
 Proof. exact ex_norm. Qed.
@@ -80,6 +86,7 @@ Print Assumptions C03_isort_is_permutation.
 Print Assumptions C03_config_fields.
 Print Assumptions C03_config_defaults.
 Print Assumptions C03_config_reads.
+Print Assumptions C03_inserted_spellings_documented.
 Print Assumptions C03_example.
 
 (* ======================================================================== TREE LEVEL
@@ -223,13 +230,13 @@ Theorem C03_case_bookkeeping_unchanged :
   forall c fn cs acc d, book (map (ncase c fn) acc) d (map (ncase c fn) cs) = book acc d cs.
 Proof. exact book_n. Qed.
 
-(* PARTIAL, side condition [dbooks]: backend / director / table declarations are fixed points of the
-   normalisation (their property values and the trailing comma of a table are not composed here).
-   Missing towards C03_full_statement: that the tokens of the normalised tree are the tokens [norm]
-   produces - shown for single constructs and on the witnesses below, not in general (the mode machine
-   of [run]). *)
-Theorem C03_program_preserves_tree_partial :
-  forall c fok ds, cprog fok ds -> allp (dbooks c) ds ->
+(* every declaration kind of the model: sub / penaltybox / ratecounter bodies, import, include, acl, and the property
+   values of backend (nested probe objects), director (fields and backend objects) and table (trailing comma added)
+   declarations.  No side condition is left.  Missing towards C03_full_statement: that the tokens of the normalised
+   tree are the tokens [norm] produces - shown for single constructs and on the witnesses below, not in general
+   (the mode machine of [run]). *)
+Theorem C03_program_preserves_tree :
+  forall c fok ds, cprog fok ds ->
   parse_vcl fok (flat_map ystmt (vstmts (norm_vcl c (Vcl ds false)))) = POK (norm_vcl c (Vcl ds false)).
 Proof. exact program_norm_parses. Qed.
 
@@ -268,17 +275,25 @@ Proof. exact (conj ex_prog_token_model ex_cases_token_model). Qed.
      - remove -> unset                    C03_remove_to_unset_preserves_tree     (nstmt SRemove)
      - elseif / elsif -> else if          C03_elseif_to_else_if_partial          (nelif, one clause)
      - return x <-> return (x)            C03_return_parenthesis_preserves_tree  (nret)
-     - whole canonical programs           C03_program_preserves_tree_partial     (composition through
-       C02_program_roundtrip; side condition [dbooks]: backend / director / table unchanged)
-   REMAINING:
-     - that [run] threads its state so that inside an expression it IS ins_plus / del_plus (the
-       decisions are bridged, the state machine of modes is not), and that `error` / `restart`
-       used as names end an operand (they do for the parser, not for Model/FmtTok.v [opend]);
-     - trailing comma of a table (ntprop), empty () of call / sub (nstmt SCall / DSub): no
-       token-level theorem on the parser model yet;
-     - sort_declaration = true (the statement below excludes it; token level:
-       C03_norm_significant_sorted_partial) and sort_declaration_property (not in the model);
-     - the layout: that the text the pretty-printer writes lexes to [norm c ts]. *)
+     - whole canonical programs           C03_program_preserves_tree, C03_norm_keeps_canonical (composition
+       through C02_program_roundtrip; every statement and declaration kind of the model, no side condition):
+       for every canonical program ds and configuration c, parse (tokens of norm_vcl c ds) = norm_vcl c ds;
+       and Props/C14.v C14_tree_idem: norm_vcl c (norm_vcl c ds) = norm_vcl c ds
+   So the TREE side of the statement is complete: for every canonical program (= every program the parser
+   accepts, up to C02_program_roundtrip's canonical form) the normalised tree is the unique parse of its own
+   tokens, and normalising twice changes nothing.
+   REMAINING - exactly one equation, between the two models of the formatter:
+       map to_tok (tokens of norm_vcl c v) = significant (norm c (to_elts (tokens of v)))
+     i.e. that the token pass [run] (a mode machine over a flat stream) produces the tokens of the tree
+     normalisation.  Proved for the decisions inside expressions (C03_concat_decision_bridge,
+     C03_token_bridge, ins_plus / del_plus = mark / unmark on canonical yields) and checked by computation on
+     the witnesses (C03_witnesses_are_model_output: C02's witness program and the case-test program); not
+     proved in general: the threading of modes through statements (`error` / `restart` used as names end an
+     operand for the parser, not for Model/FmtTok.v [opend]); sort_declaration = true (excluded below; token
+     level: C03_norm_significant_sorted_partial); sort_declaration_property (not in the token model; compared
+     up to property order by the correspondence).
+   OUTSIDE both models: the layout - that the text the pretty-printer writes lexes to [norm c ts] - is the
+   correspondence of every run. *)
 Definition C03_full_statement : Prop :=
   forall fok c ts v,
     FmtTok.sort_declaration c = false ->
@@ -299,7 +314,7 @@ Print Assumptions C03_norm_keeps_canonical.
 Print Assumptions C03_case_bookkeeping_unchanged.
 Print Assumptions C03_case_concat_example.
 Print Assumptions C03_witnesses_are_model_output.
-Print Assumptions C03_program_preserves_tree_partial.
+Print Assumptions C03_program_preserves_tree.
 Print Assumptions C03_program_example.
 End Tree.
 
